@@ -229,6 +229,15 @@ def run(ctx):
                     "%s==''" % str_var, 'len(%s)<1' % str_var) and \
                 any(isinstance(n, ast.Raise) and _is_value_error(n) for n in stmt.body):
             empty_ok = True
+    # only the padding blank may be stripped from the field: str.strip() without
+    # argument also removes TAB, CR, LF, FF, NBSP ... which are illegal characters
+    # of a hybrid-36 field and must be rejected, not ignored
+    strips = [c for c in calls_in(fn, nested=False) if last_attr(c) in ('strip', 'lstrip', 'rstrip')]
+    strip_ok = all(len(c.args) == 1 and isinstance(c.args[0], ast.Constant) and c.args[0].value == ' '
+                   for c in strips)
+    ctx.ob('C19.R2', 'padding:only-blanks-stripped', strip_ok,
+           'the field is stripped of blanks only (calls: %s)' % [norm(c) for c in strips], mod,
+           next((c for c in strips if not (len(c.args) == 1)), strips[0] if strips else fn))
     ctx.ob('C19.R2', 'empty-rejected-before-indexing', empty_ok,
            'an empty field is rejected with ValueError before its first character is read',
            mod, idx_stmt or fn)
